@@ -1,7 +1,7 @@
 """Classes used by the C15 check as argument / result values (enums, exceptions, JsonSerializable objects)."""
 from __future__ import annotations
 
-from enum import Enum, IntEnum, StrEnum
+from enum import Enum, IntEnum, IntFlag, StrEnum
 
 
 class Color(Enum):
@@ -19,6 +19,27 @@ class Level(IntEnum):
 class Tag(StrEnum):
     A = "a"
     Q = 'q"\\;='
+
+
+class Sev(str, Enum):
+    """the pre-3.11 string-enum idiom: a str mix-in that is not a StrEnum (json.dumps writes such a member bare)"""
+    ERROR = "error"
+    WARN = "warn"
+
+
+class Slot(int, Enum):
+    ONE = 1
+    TWO = 2
+
+
+class Weight(float, Enum):
+    LIGHT = 0.5
+    HEAVY = 2.5
+
+
+class Perm(IntFlag):
+    R = 4
+    W = 2
 
 
 class Outer:
@@ -68,7 +89,8 @@ class Outer3:
             return 1
 
 
-ENUMS = [Color, Level, Tag, Outer.Inner]
+ENUMS = [Color, Level, Tag, Outer.Inner, Sev, Slot, Weight]
+FLAGS = [Perm]  # oracle only: Perm(99) is a pseudo-member, not a ValueError, so the registry's lookup table does not describe it
 EXCS = [AppError, Outer2.DeepError]
 OBJS = [Money, Outer3.Box]
 BUILTIN_EXCS = [ValueError, KeyError, RuntimeError, TypeError, ZeroDivisionError, LookupError]
